@@ -40,28 +40,39 @@ var _ Unit = (*Storage)(nil)
 func (m ResourceUnits) Add(rhs ResourceUnits) (ResourceUnits, error) {
 	res := m
 
+	// work on copies: the result must not share CPU, Memory or Storage with
+	// either operand, otherwise a later Add changes the operand as well
 	if res.CPU != nil {
+		cpu := *res.CPU
+		res.CPU = &cpu
 		if err := res.CPU.add(rhs.CPU); err != nil {
 			return ResourceUnits{}, err
 		}
-	} else {
-		res.CPU = rhs.CPU
+	} else if rhs.CPU != nil {
+		cpu := *rhs.CPU
+		res.CPU = &cpu
 	}
 
 	if res.Memory != nil {
+		memory := *res.Memory
+		res.Memory = &memory
 		if err := res.Memory.add(rhs.Memory); err != nil {
 			return ResourceUnits{}, err
 		}
-	} else {
-		res.Memory = rhs.Memory
+	} else if rhs.Memory != nil {
+		memory := *rhs.Memory
+		res.Memory = &memory
 	}
 
 	if res.Storage != nil {
+		storage := *res.Storage
+		res.Storage = &storage
 		if err := res.Storage.add(rhs.Storage); err != nil {
 			return ResourceUnits{}, err
 		}
-	} else {
-		res.Storage = rhs.Storage
+	} else if rhs.Storage != nil {
+		storage := *rhs.Storage
+		res.Storage = &storage
 	}
 
 	return res, nil
